@@ -319,6 +319,19 @@ FM_EXPORT void fm_shift_range(int left, i64 a, int r0, size_t n, i64* out)
   else     for(size_t i=0;i<n;++i) out[i] = (fx(a) >> static_cast<int>(r0 + static_cast<i64>(i))).v;
   }
 
+// the shift count written with its own integral type (a size_t loop index, an uint8_t field, a long): no cast to int at the call site
+namespace {
+template<typename T> FM_NOINLINE void shift_typed(int left, i64 a, const i64* counts, size_t n, i64* out) noexcept
+  {
+  if(left) for(size_t i=0;i<n;++i) { T r { static_cast<T>(counts[i]) }; out[i] = (fx(a) << r).v; }
+  else     for(size_t i=0;i<n;++i) { T r { static_cast<T>(counts[i]) }; out[i] = (fx(a) >> r).v; }
+  }
+}
+FM_EXPORT void fm_shift_typed(int left, int ctype, i64 a, const i64* counts, size_t n, i64* out)
+  {
+  with_int_type(ctype, [&](auto t) -> int { shift_typed<decltype(t)>(left, a, counts, n, out); return 0; });
+  }
+
 FM_EXPORT i64 fm_from_int(int how, int type, u64 bits)
   {
   return with_how3(how, [&](auto h){ return with_int_type(type, [&](auto t) -> i64 {
